@@ -30,6 +30,10 @@ fn main() {
         "c12" => modes::c12(&a),
         "c13" => modes::c13(&a),
         "c15" => modes::c15(&a),
+        "c05" => modes::c05(&a),
+        "c09" => modes::c09(&a),
+        "c10s" => modes::c10s(&a),
+        "c18" => modes::c18(&a),
         _ => { eprintln!("usage: harness <mode> [--seed S] [--n N] [--out DIR] [--shard K] [--thorough]"); std::process::exit(2) }
     };
     cs.write(&a.out, a.shard).expect("write cases");
